@@ -72,7 +72,7 @@ SeekAdmitted ==
     \E o \in Q!SeekOutcomes(Trace[fl].files, Trace[fl].level, R.t) :
         /\ o.res = R.res
         /\ \/ o.cur = R.cur
-           \/ o.cur = -2 /\ R.cur \in 0..Q!N
+           \/ o.cur = -2 /\ R.cur = cur         \* an error leaves the cursor where it was
 
 TSeek == /\ InRange /\ ~skip /\ R.k = "seek"
          /\ IF SeekAdmitted
